@@ -340,4 +340,98 @@ theorem median_even (l : List Rat) (m : Nat) (h : l.length = 2 * m + 2) :
   simp
   grind
 
+/-! ### Monotonicity of the quantile in its level -/
+
+/-- linear interpolation of an ascending list at the virtual index `x` (what `quantile` evaluates) -/
+def interp (s : List Rat) (x : Rat) : Rat :=
+  let lo := x.floor.toNat
+  let hi := min (lo + 1) (s.length - 1)
+  s.getD lo 0 + (s.getD hi 0 - s.getD lo 0) * (x - (lo : Rat))
+
+theorem quantile_eq_interp (q : Rat) (l : List Rat) :
+    quantile q l = interp (sorted l) (q * (((sorted l).length - 1 : Nat) : Rat)) := rfl
+
+theorem getD_mono {s : List Rat} (hs : s.Pairwise (fun a b => a ≤ b)) {i j : Nat} (hij : i ≤ j) (hj : j < s.length) :
+    s.getD i 0 ≤ s.getD j 0 := by
+  have hi : i < s.length := by omega
+  simp only [List.getD_eq_getElem?_getD, List.getElem?_eq_getElem hi, List.getElem?_eq_getElem hj, Option.getD_some]
+  rcases Nat.lt_or_ge i j with h | h
+  · exact (List.pairwise_iff_getElem.mp hs) i j hi hj h
+  · have : i = j := by omega
+    subst this; exact Rat.le_refl
+
+theorem floorNat_le {x : Rat} (hx : 0 ≤ x) : ((x.floor.toNat : Nat) : Rat) ≤ x := by
+  have h0 : 0 ≤ x.floor := Rat.le_floor_iff.mpr (by simpa using hx)
+  have : ((x.floor.toNat : Nat) : Rat) = ((x.floor : Int) : Rat) := by
+    rw [← Rat.intCast_natCast, Int.toNat_of_nonneg h0]
+  rw [this]; exact Rat.floor_le x
+
+theorem lt_floorNat_add_one {x : Rat} (hx : 0 ≤ x) : x < ((x.floor.toNat : Nat) : Rat) + 1 := by
+  have h0 : 0 ≤ x.floor := Rat.le_floor_iff.mpr (by simpa using hx)
+  have : ((x.floor.toNat : Nat) : Rat) = ((x.floor : Int) : Rat) := by
+    rw [← Rat.intCast_natCast, Int.toNat_of_nonneg h0]
+  rw [this]
+  have := Rat.lt_floor_add_one x
+  have h2 : ((x.floor + 1 : Int) : Rat) = ((x.floor : Int) : Rat) + 1 := by norm_cast
+  rwa [h2] at this
+
+theorem floorNat_mono {x y : Rat} (hx : 0 ≤ x) (hxy : x ≤ y) : x.floor.toNat ≤ y.floor.toNat := by
+  have h : x.floor ≤ y.floor := Rat.le_floor_iff.mpr (Rat.le_trans (Rat.floor_le x) hxy)
+  have h0 : 0 ≤ x.floor := Rat.le_floor_iff.mpr (by simpa using hx)
+  omega
+
+theorem floorNat_le_of_le_natCast {x : Rat} (hx : 0 ≤ x) {m : Nat} (h : x ≤ (m : Rat)) : x.floor.toNat ≤ m := by
+  have : ((x.floor.toNat : Nat) : Rat) ≤ (m : Rat) := Rat.le_trans (floorNat_le hx) h
+  exact Rat.natCast_le_natCast.mp this
+
+/-- the interpolant is monotone in the virtual index on `[0, n-1]` -/
+theorem interp_mono {s : List Rat} (hs : s.Pairwise (fun a b => a ≤ b)) (hne : s ≠ []) {x y : Rat}
+    (hx : 0 ≤ x) (hxy : x ≤ y) (hy : y ≤ ((s.length - 1 : Nat) : Rat)) : interp s x ≤ interp s y := by
+  have hn : 0 < s.length := List.length_pos_iff.mpr hne
+  have hy0 : 0 ≤ y := Rat.le_trans hx hxy
+  have hi := floorNat_le_of_le_natCast hx (Rat.le_trans hxy hy)
+  have hj := floorNat_le_of_le_natCast hy0 hy
+  have hij := floorNat_mono hx hxy
+  have hgx0 := floorNat_le hx
+  have hgx1 := lt_floorNat_add_one hx
+  have hgy0 := floorNat_le hy0
+  simp only [interp]
+  generalize hI : x.floor.toNat = i at *
+  generalize hJ : y.floor.toNat = j at *
+  have hai_bi : s.getD i 0 ≤ s.getD (min (i + 1) (s.length - 1)) 0 := getD_mono hs (by omega) (by omega)
+  have haj_bj : s.getD j 0 ≤ s.getD (min (j + 1) (s.length - 1)) 0 := getD_mono hs (by omega) (by omega)
+  rcases Nat.lt_or_ge i j with hlt | hge
+  · -- different cells: f x ≤ b_i ≤ a_j ≤ f y
+    have h1 : s.getD i 0 + (s.getD (min (i + 1) (s.length - 1)) 0 - s.getD i 0) * (x - (i : Rat)) ≤
+        s.getD (min (i + 1) (s.length - 1)) 0 := by
+      have : (s.getD (min (i + 1) (s.length - 1)) 0 - s.getD i 0) * (x - (i : Rat)) ≤
+          (s.getD (min (i + 1) (s.length - 1)) 0 - s.getD i 0) * 1 :=
+        Rat.mul_le_mul_of_nonneg_left (by grind) (by grind)
+      grind
+    have h2 : s.getD (min (i + 1) (s.length - 1)) 0 ≤ s.getD j 0 := getD_mono hs (by omega) (by omega)
+    have h3 : s.getD j 0 ≤ s.getD j 0 + (s.getD (min (j + 1) (s.length - 1)) 0 - s.getD j 0) * (y - (j : Rat)) := by
+      have : 0 ≤ (s.getD (min (j + 1) (s.length - 1)) 0 - s.getD j 0) * (y - (j : Rat)) :=
+        Rat.mul_nonneg (by grind) (by grind)
+      grind
+    exact Rat.le_trans h1 (Rat.le_trans h2 h3)
+  · have : i = j := by omega
+    subst this
+    have : (s.getD (min (i + 1) (s.length - 1)) 0 - s.getD i 0) * (x - (i : Rat)) ≤
+        (s.getD (min (i + 1) (s.length - 1)) 0 - s.getD i 0) * (y - (i : Rat)) :=
+      Rat.mul_le_mul_of_nonneg_left (by grind) (by grind)
+    grind
+
+/-- **Quantiles are monotone in the level** on `[0, 1]`. -/
+theorem quantile_mono (l : List Rat) {q₁ q₂ : Rat} (h0 : 0 ≤ q₁) (h12 : q₁ ≤ q₂) (h1 : q₂ ≤ 1) :
+    quantile q₁ l ≤ quantile q₂ l := by
+  by_cases hne : sorted l = []
+  · simp [quantile, hne]
+  · rw [quantile_eq_interp, quantile_eq_interp]
+    have hc : (0 : Rat) ≤ (((sorted l).length - 1 : Nat) : Rat) := Rat.natCast_nonneg
+    apply interp_mono (sorted_pairwise l) hne
+    · exact Rat.mul_nonneg h0 hc
+    · exact Rat.mul_le_mul_of_nonneg_right h12 hc
+    · have := Rat.mul_le_mul_of_nonneg_right h1 hc
+      simpa using this
+
 end StarsimModel.MultiRun
